@@ -171,7 +171,7 @@ pub fn draw_alteration(f: &mut Rng, image_len: usize) -> Vec<Patch> {
         5 => vec![Patch::Set { offset: base + f.below(1020), bytes: vec![0u8; 1 + f.usize_below(4)] }],
         6 => {
             // header fields of page 0 (file length, XML offset, XML length, page size), low bits favoured
-            let field = 16 + 8 * f.below(4);
+            let field = *f.pick(&[0u64, 8, 16, 24, 32, 40, 16, 24, 32, 40]);
             let byte = if f.chance(2, 3) { 0 } else { f.below(8) };
             let bit = if f.chance(1, 2) { f.below(3) } else { f.below(8) };
             vec![Patch::Xor { offset: field + byte, mask: 1 << bit }]
